@@ -1026,6 +1026,8 @@ void SimplifyConstTimes::constSimplify(SymRef s, vec<PTRef> const & terms, SymRe
         }
         if (not l.isOne(tr)) {
             if (l.isPlus(tr)) {
+                // More than one sum factor: keep every one of them so that the product is recognized as non-linear
+                if (plus != PTRef_Undef) { terms_new.push(plus); }
                 plus = tr;
             } else if (l.isConstant(tr)) {
                 con = tr;
